@@ -94,9 +94,9 @@ func (c *conn) terminate(err error) error {
 	}
 	c.logger.Debug("Terminating connection")
 	c.cancel(err) // Cancel the server context
-	if tx := c.tx.Swap(chan txMsg(nil)); tx != nil && tx != chan txMsg(nil) {
-		close(tx.(chan txMsg))
-	}
+	// The transmit channel is detached but not closed: a concurrent send() may hold it,
+	// and sending on a closed channel panics. Both loops end with the context.
+	c.tx.Store(chan txMsg(nil))
 	return c.stream.Close() // Close the connection
 }
 
